@@ -20,6 +20,7 @@ from sa.pyfront import Program
 from sa.symex import Interp
 
 RULES = {
+    "R-C20-f": "only an exception raised by the callback stops the cube: its return value is not used (no raise / return of the task depends on it)",
     "R-C20-e": "the callback read inside a pooled task is the one the caller set: check_interrupt is a plain attribute, not a property over threading.local storage (worker threads have their own, empty, slot)",
     "R-C20-a": "check_interrupt is called exactly once per task, before any store or effectful call, outside loops of the task, guarded only by `is not None`",
     "R-C20-b": "no try/except or suppressing context manager between the public method and the callback can complete without re-raising",
@@ -86,6 +87,27 @@ def analyse_one(prog, module, clsname, rep):
                       "callback is %s" % ("inside a loop of the task (consulted per row/entry, not per sub-cube)" if extra_loops else
                                           "conditional on %s" % [tm.show(g[0])[:60] for g in extra_guards if not _is_not_none_guard(g)] if not only_none_guard else
                                           "called from %s, not from the task function itself" % c.fi.qualname))
+            # R-C20-f: "not raising makes it return": what the callback RETURNS decides nothing
+            res = c.d.get("result")
+            users = []
+            if res is not None:
+                for e in tev:
+                    if e.seq <= c.seq:
+                        continue
+                    for g in e.guards:
+                        if g not in c.guards and tm.contains(g[0], lambda x: x == res):
+                            users.append(e)
+                            break
+            cons_f = "%s task: the callback's return value is ignored" % kname
+            bad_users = [e for e in users if e.kind in ("raise", "return", "break", "continue")]
+            if bad_users:
+                rep.violated("R-C20-f", "%s@%d" % (bad_users[0].fi.fq, bad_users[0].line), cons_f,
+                             "a %s depends on what the callback returned: a callback that never raises but returns a truthy value (a count, a timestamp, a Mock) aborts the evaluation with an exception nobody raised" % bad_users[0].kind,
+                             witness={"history": "check_interrupt = itertools.count(1).__next__: calculate raises although the callback never did"})
+            elif users:
+                rep.undecided("R-C20-f", "%s@%d" % (users[0].fi.fq, users[0].line), cons_f, "later statements of the task are conditional on the callback's return value")
+            else:
+                rep.proved("R-C20-f", "%s@%d" % (c.fi.fq, c.line), cons_f, "called as a statement; no branch of the task reads its result")
             # first effect of the task
             before = [e for e in tev if e.seq < c.seq and _is_effect(e, I)]
             rep.check(not before, "R-C20-a", "%s@%d" % (c.fi.fq, c.line), "%s task: callback precedes every effect" % kname,
